@@ -113,14 +113,23 @@ func armAssertedType(c *Ctx, f *FuncInfo, val string, param string) types.Type {
 				continue
 			}
 			var res types.Type
-			for _, st := range arm.Body {
-				ast.Inspect(st, func(m ast.Node) bool {
-					ta, ok := m.(*ast.TypeAssertExpr)
-					if ok && ta.Type != nil && objOfIdent(info, ta.X) == types.Object(pv) && res == nil {
-						res = info.Types[ta.Type].Type
-					}
-					return true
-				})
+			scan := func(info *types.Info, body []ast.Stmt, pv *types.Var) {
+				for _, st := range body {
+					ast.Inspect(st, func(m ast.Node) bool {
+						ta, ok := m.(*ast.TypeAssertExpr)
+						if ok && ta.Type != nil && objOfIdent(info, ta.X) == types.Object(pv) && res == nil {
+							res = info.Types[ta.Type].Type
+						}
+						return true
+					})
+				}
+			}
+			scan(info, arm.Body, pv)
+			if res == nil {
+				// arm delegated to a helper: `return helper(..., param, ...)`
+				if g, bind := c.armDelegate(f, arm.Body); g != nil && bind[pv] != nil {
+					scan(g.Pkg.TypesInfo, g.Body().List, bind[pv])
+				}
 			}
 			return res
 		}
